@@ -182,12 +182,21 @@ def r_cost(p):
     from . import userclasses as uc
     hint, conf, node, factory = _setup(p)
     uc.READS.clear()
-    obj = factory()
+    obj = uc.counting(factory())     # builtin dict / list -> counting exact subclasses (same isinstance() answers)
     uc.READS.clear()
     verdict, detail = run_program(p['program'], lambda: obj, hint, conf, p['draw'])
     n = len(uc.READS)
     if n > p['bound_reads']:
         return True, f'{n} container reads > {p["bound_reads"]} ({uc.READS[:8]}...) on {obj!r}'
+    # the model's container may have collapsed when reified (equal keys); the claim is about growth with size, so the
+    # same shape padded to 40 entries per builtin dict / list is the concrete witness
+    big = uc.counting(uc.enlarged(factory()))
+    uc.READS.clear()
+    run_program(p['program'], lambda: big, hint, conf, p['draw'])
+    nb = len(uc.READS)
+    if nb > p['bound_reads']:
+        return True, (f'{nb} container reads > {p["bound_reads"]} ({uc.READS[:4]}...) on the object {obj!r} padded to 40 entries '
+                      f'per container ({n} reads on the unpadded one)')
     return False, f'{n} reads <= {p["bound_reads"]}'
 
 
